@@ -41,7 +41,10 @@ def gen_workload(r):
   ops = []
   n = r.randint(3, 14)
   for i in range(n):
-    ops.append(('store', r.choice(metrics), 999900 + r.randrange(4)))
+    ts = 999900 + r.randrange(4)
+    if r.random() < 0.3:
+      ts += r.choice([0.25, 0.5, 0.75])      # sub-second clients: several points of one metric within one second
+    ops.append(('store', r.choice(metrics), ts))
     if r.random() < 0.25:
       ops.append(('sleep', r.choice([0.05, 0.5, 1.5])))
   ops.append(('sleep', 2.5))
